@@ -865,8 +865,8 @@ def replay_bbox(ctx, rows, G, latboxes):
                     ctx.drift("%s accepts a grid case the transcription rejects: %s" % (how, case))
     ctx.count(2 * n)
     ctx.trace_ok(n)
-    ctx.note("bbox_grid_cases_replayed", n)
-    ctx.note("bbox_grid_cases_expected_reject", nfalse)
+    ctx.add_note("bbox_grid_cases_replayed", n)
+    ctx.add_note("bbox_grid_cases_expected_reject", nfalse)
     return n
 
 
